@@ -107,14 +107,22 @@ def fam_filter(n, tier):
     fails = []
     thrs = sorted(set([0.0, 1.0, 0.5, 0.3] + [k / (n - 1) for k in range(n)]))
     sizes = [tuple([1] * n)] + ([tuple([2] + [1] * (n - 1))] if n <= 3 else [])
+    if n >= 3:
+        # trains without spikes among the partners (the normalisation stays N-1)
+        sizes += [tuple([1] * (n - 1) + [0]), tuple([2] + [1] * (n - 2) + [0])] + ([tuple([1] + [0] * (n - 1))] if n == 3 else [])
     for compiled in (False, True):
         for kwc, kw in (('default', {}), ('max_tau_MRTS', {'max_tau': 0.2, 'MRTS': 0.3})):
             for m in sizes:
-                slots = [(i, j, k) for i in range(n) for j in range(n) if i != j for k in range(m[i])]
+                # the indicator against a train without spikes is all zero by the kernel contract (C03): not enumerated
+                slots = [(i, j, k) for i in range(n) for j in range(n) if i != j and m[j] > 0 for k in range(m[i])]
                 for assign in itertools.product((0, 1), repeat=len(slots)):
                     bits = {}
                     for (i, j, k), b in zip(slots, assign):
                         bits.setdefault((i, j), [0] * m[i])[k] = b
+                    for i_ in range(n):
+                        for j_ in range(n):
+                            if i_ != j_ and (i_, j_) not in bits:
+                                bits[(i_, j_)] = [0] * m[i_]
                     bits = {kk: tuple(v) for kk, v in bits.items()}
                     for thr in thrs:
                         tot += 1
